@@ -370,10 +370,47 @@ class Result:
         return 1
 
 
+def coqchk_stage(prop_id):
+    """Thorough tier: re-check the compiled property module and everything it depends on with the
+    independent checker coqchk; result cached by the hash of the property's .vo closure."""
+    vos = []
+    for base, _, files in os.walk(os.path.join(COQ, "theories")):
+        vos += [os.path.join(base, f) for f in files if f.endswith(".vo")]
+    dep = os.path.join(COQ, "theories", "Properties", "%s.vo" % prop_id)
+    key = file_hash([dep]) + "-" + file_hash([v for v in vos if "/Properties/" not in v])
+    cache = os.path.join(BUILD, "coqchk", "%s-%s.json" % (prop_id, key))
+    if os.path.exists(cache):
+        return json.load(open(cache))
+    rc, out = sh("ulimit -v 24000000; timeout 3000 coqchk -silent -o -Q theories CanVerif CanVerif.Properties.%s" % prop_id,
+                 cwd=COQ)
+    axioms = []
+    m = re.search(r"\* Axioms:(.*?)\n\s*\n\* Constants", out, re.S)
+    if m:
+        axioms = [a.strip() for a in m.group(1).strip().splitlines() if a.strip() and a.strip() != "<none>"]
+    bad_flags = [k for k in ("type-in-type", "unsafe (co)fixpoints", "positivity is assumed")
+                 if not re.search(re.escape(k) + r":\s*<none>", out)]
+    result = {"ok": rc == 0 and not bad_flags, "rc": rc, "axioms": axioms, "weakened_checks": bad_flags if rc == 0 else [],
+              "tail": out[-600:]}
+    bad = [a for a in axioms if a not in AXIOM_WHITELIST and a.split(".")[-1] not in AXIOM_WHITELIST
+           and not a.startswith("Coq.")]
+    if bad:
+        result["ok"] = False
+        result["non_stdlib_axioms"] = bad
+    os.makedirs(os.path.dirname(cache), exist_ok=True)
+    json.dump(result, open(cache, "w"))
+    return result
+
+
 def proof_stage(res):
     """Run the proof stage for res.id and record failures by the protocol of DESIGN.md 2.3."""
     coq = coq_stage(res.id)
     res.coq = coq
+    if coq["ok"] and res.tier == "thorough" and os.environ.get("VERIF_COQCHK", "1") != "0":
+        chk = coqchk_stage(res.id)
+        res.cov["coqchk"] = {k: chk[k] for k in ("ok", "rc", "axioms", "weakened_checks") if k in chk}
+        if not chk["ok"]:
+            coq["ok"] = False
+            coq["failed_theorem"] = "coqchk rejected CanVerif.Properties.%s: %s" % (res.id, chk.get("tail", "")[-300:])
     if not coq["ok"]:
         res.violation("proof obligation no longer checks: %s" % coq["failed_theorem"],
                       {"theorem_file": "coq/theories/Properties/%s.v" % res.id,
